@@ -110,8 +110,9 @@ def make_classes(rec):
             FakeProc._next_pid[0] += 1
             self._waiters = []
             self._loop = loop
-            self.stdout_data = ("out-%s\n" % tid).encode() * (1 + tid % 3)
-            self.stderr_data = ("err-%s\n" % tid).encode()
+            # arbitrary bytes (a tool printing Latin-1 or binary data): the logs must hold them unchanged
+            self.stdout_data = ("out-%s\n" % tid).encode() * (1 + tid % 3) + b"sm\xf8rrebr\xf8d \xff\xfe\x00\x80\n"
+            self.stderr_data = ("err-%s\n" % tid).encode() + b"\xe9\xa0\n"
             rec.procs[tid] = self
             rec.pids[self.pid] = self
 
